@@ -33,6 +33,9 @@ CONSTRUCTS = [
     ("![ls -l]", "__xonsh__.subproc_captured_hiddenobject('ls', '-l')"), ("`.*\\.py`", "__xonsh__.pathsearch('`.*\\\\.py`')"),
     ("g`*.py`", "__xonsh__.pathsearch('g`*.py`')"), ("p'/tmp/x'", "__xonsh__.path_literal('/tmp/x')"), ("abc?", "__xonsh__.help(abc)"),
     ("abc??", "__xonsh__.superhelp(abc)"), ("a?.b?", "__xonsh__.help(__xonsh__.help(a).b)"), ("(u && v)", "(u and v)"), ("(u || v)", "(u or v)"),
+    ("pf'/a/{b}/' f'{c}.txt'", "__xonsh__.path_literal(f'/a/{b}/' f'{c}.txt')"), ("pf'/a' f\"{'b'}\"", "__xonsh__.path_literal(f'/a' f\"{'b'}\")"),
+    ("pf'/a/' 'b/' f'{c}'", "__xonsh__.path_literal(f'/a/' 'b/' f'{c}')"), ("p'/x' '/y'", "__xonsh__.path_literal('/x' '/y')"),
+    ("pf'{d}/{p\"q\"}'", "__xonsh__.path_literal(f'{d}/{__xonsh__.path_literal(\"q\")}')"),
     ("$(echo $HOME @(x) @$(which y))", "__xonsh__.subproc_captured('echo', __xonsh__.env['HOME'], *__xonsh__.list_of_strs_or_callables(x), *__xonsh__.subproc_captured_inject('which', 'y'))"),
 ]
 CONTEXTS = [
